@@ -645,6 +645,34 @@ def sp_rgb_is(interp, st, args, kwargs, node):
     return b_and(*[M.s_cmp(ast.Eq(), M.getitem(interp, st, img, (p, q, c), node), colour[c]) for c in range(3)])
 
 
+def _events(st):
+    fin = st.env.get("__final__")
+    if isinstance(fin, dict) and "__events__" in fin:
+        return fin["__events__"]
+    return st.env.get("__events__", [])
+
+
+def sp_n_calls(interp, st, args, kwargs, node):
+    """how often the method `name` of an opaque object was called on this path (a python int: calls are path-specific)"""
+    return sum(1 for e in _events(st) if e[0] == args[0])
+
+
+def sp_call_receiver(interp, st, args, kwargs, node):
+    """the receiver of the k-th recorded call of method `name`"""
+    ev = [e for e in _events(st) if e[0] == args[0]]
+    return ev[args[1]][1]
+
+
+def sp_call_arg(interp, st, args, kwargs, node):
+    ev = [e for e in _events(st) if e[0] == args[0]]
+    return ev[args[1]][2][args[2]]
+
+
+def sp_call_result(interp, st, args, kwargs, node):
+    ev = [e for e in _events(st) if e[0] == args[0]]
+    return ev[args[1]][4]
+
+
 def sp_has_key(interp, st, args, kwargs, node):
     return isinstance(args[0], dict) and args[1] in args[0]
 
@@ -657,6 +685,10 @@ SPEC_FUNCTIONS = {
     "rgb_is": sp_rgb_is,
     "has_field": sp_has_field,
     "has_key": sp_has_key,
+    "n_calls": sp_n_calls,
+    "call_receiver": sp_call_receiver,
+    "call_arg": sp_call_arg,
+    "call_result": sp_call_result,
     "maze_equal": sp_maze_equal,
     "psum_monotone": sp_psum_monotone,
     "psum_congruence": sp_psum_congruence,
